@@ -279,7 +279,7 @@ func (self *_parser) parseArrowFunctionBody(async bool) (ast.ConciseBody, []*ast
 	if self.token == token.LEFT_BRACE {
 		return self.parseFunctionBlock(async, async, false)
 	}
-	if async != self.scope.inAsync || async != self.scope.allowAwait {
+	if async != self.scope.inAsync || async != self.scope.allowAwait || self.scope.allowYield {
 		inAsync := self.scope.inAsync
 		allowAwait := self.scope.allowAwait
 		self.scope.inAsync = async
